@@ -14,8 +14,10 @@ import gen_engine as G
 PID = "C18"
 
 
+# (duration groups: taking a member of a duration group out makes the next member pay the group's duration - a removal that
+# delays what follows is not "safe")
 SAFE = {"groups": True, "initial": False, "capacity": False, "nonmetric": False, "maxwait_stop": False, "maxwait_veh": False,
-        "maxdist": False}
+        "maxdist": False, "dgroups": False}
 
 
 def nested_checks(chk, tier, seed):
